@@ -16,6 +16,8 @@ CONSTANTS
   Acct,             \* accounts 1..NA holding a key
   Keys, Vals,       \* key-value payload alphabet
   KvChecksNonce,    \* TRUE: executeKVTx compares the tx nonce with the sender nonce (code after the fix)
+  FailedCreateConsumesNonce, \* TRUE: evm.create bumps the creator nonce before the snapshot a failing init code reverts
+                    \* to (the code); FALSE: the snapshot is taken first, a failed creation gives the nonce back
   EmptyTxInvalid,   \* TRUE: a zero-length tx is reported invalid; FALSE: execFunc dereferences tx == nil (panic)
   AdminBoundsChecked\* TRUE: AdminOP.Run refuses a direct call before it slices its input (only the genesis Admin
                     \* contract may call 0xfe); FALSE: input[:32], input[32:52] sliced unchecked (panic on short input)
@@ -26,6 +28,9 @@ None == "none"
 SignedClasses ==
   {"xfer",      \* value 0 to a plain address
    "create",    \* deploys the counter contract at CreateAddress(a, n)
+   "createfail",\* contract creation whose init code fails (INVALID opcode / REVERT / gas budget / stack underflow):
+                \* evm.create bumps the creator's nonce BEFORE it takes the snapshot the failure reverts to, so the
+                \* tx is applied (failed receipt, nothing deployed) and its nonce is consumed
    "call",      \* calls the contract created by (account 1, nonce 0): cnt := cnt+1, one log
    "revert",    \* same target, REVERT
    "oog",       \* same target, exceeds the EVM gas budget
@@ -42,6 +47,7 @@ UnsignedClasses == {"badsig", "junk", "empty"}
 Classes == SignedClasses \cup UnsignedClasses
 KvClasses == {"kv", "kvbig"}
 ConsensusErr == {"value", "price", "lowgas"}
+CreateFail == {"createfail"}
 VmFail == {"revert", "oog"}   \* applied; receipt status = failed when the target contract exists
 
 Tx(c, a, n, k, v) == [c |-> c, a |-> a, n |-> n, k |-> k, v |-> v]
@@ -64,7 +70,7 @@ Result(s, t) ==
 
 (* Trie state after a VALID t (an invalid t is rolled back by RevertToSnapshot: no change). *)
 Apply(s, t) ==
-  LET s1 == [s EXCEPT !.nonce[t.a] = @ + 1]
+  LET s1 == IF t.c = "createfail" /\ ~FailedCreateConsumesNonce THEN s ELSE [s EXCEPT !.nonce[t.a] = @ + 1]
   IN IF t.c = "create" THEN [s1 EXCEPT !.created = @ \cup {<<t.a, t.n>>}]
      ELSE IF t.c = "call" /\ Target \in s.created THEN [s1 EXCEPT !.cnt = @ + 1]
      ELSE s1
@@ -75,7 +81,7 @@ Step(s, t) == IF Result(s, t) = "valid" THEN Apply(s, t) ELSE s
 IsKv(t) == t.c \in KvClasses
 Receipt(s, t, idx) == [t |-> t, idx |-> idx,
                        ok |-> IF t.c \in VmFail THEN Target \notin s.created   \* call to an empty account succeeds
-                              ELSE t.c # "admshort",
+                              ELSE t.c \notin {"admshort", "createfail"},
 
                        log |-> t.c = "call" /\ Target \in s.created]
 KvRec(t) == [k |-> t.k, v |-> t.v]
